@@ -1,4 +1,6 @@
 """C17 - bit sequences behave as sequences of at most 64 bits."""
+import re
+
 from . import common as C
 
 RULE = ("cases = exhaustive sweep of every single operation on every sequence of length <= 4 (quick) / 6 (thorough), "
@@ -42,6 +44,77 @@ def equal(case, impl, model):
     return impl == model
 
 
+def kernel_crosscheck(ctx, limit=120):
+    """Second evaluation route for the model (DESIGN.md 2.3, step 4): a sample of the history cases is evaluated by the
+    kernel (vm_compute inside coqc) and must give exactly what the EXTRACTED runner printed - this cross-checks
+    extraction, the OCaml driver and its parsing / printing against Coq's own evaluator.  Each sampled case becomes
+    `Example k : hist b0 ops = <runner's output as a Coq term>. Proof. vm_compute. reflexivity. Qed.`"""
+    import os
+    import subprocess
+    out = os.path.join(ctx.work, "corr")
+    try:
+        cases = open(os.path.join(out, "cases.txt")).read().splitlines()
+        model = open(os.path.join(out, "model.txt")).read().splitlines()
+    except OSError:
+        return {"kernel_crosscheck": "no run"}, []
+    hist = [(c, m) for c, m in zip(cases, model) if c.startswith("hist ")]
+    step = max(1, len(hist) // limit)
+    sample = hist[::step][:limit]
+
+    def op_term(t, k):
+        o = t[k]
+        if o == "set":
+            return "OSet %s %s" % (t[k + 1], "true" if t[k + 2] == "1" else "false"), k + 3
+        if o == "push":
+            return "OPush %s" % ("true" if t[k + 1] == "1" else "false"), k + 2
+        if o == "append":
+            return "OAppend %s%%N %s" % (t[k + 1], t[k + 2]), k + 3
+        if o == "remove":
+            return "ORemove %s" % t[k + 1], k + 2
+        if o == "insert":
+            return "OInsert %s %s" % (t[k + 1], "true" if t[k + 2] == "1" else "false"), k + 3
+        if o == "sub":
+            return "OSub %s" % t[k + 1], k + 2
+        raise ValueError(o)
+
+    lines = ["From Coq Require Import List NArith Arith.", "Require Import Yui.Model.BitSeq.", "Import ListNotations.",
+             "Fixpoint hist (b : bitseq) (ops : list op) : list (option bitseq) :=",
+             "  match ops with [] => [] | o :: r => step b o :: hist (run_step b o) r end."]
+    n = 0
+    for c, m in sample:
+        t = c.split()
+        try:
+            ops, k = [], 3
+            while k < len(t):
+                term, k = op_term(t, k)
+                ops.append("(" + term + ")")
+            exp = []
+            for x in m.split():
+                a = x.split("|")[0]
+                if a == "P":
+                    exp.append("None")
+                else:
+                    v, l = a.split(":")
+                    exp.append("Some (mk %s%%N %s)" % (v, l))
+        except (ValueError, IndexError):
+            continue
+        if any(int(z) > 200 for z in re.findall(r"(?<![%\d])\b(\d+)\b(?!%N)", " ".join(ops))):
+            continue  # unary nat literals: keep them small
+        lines.append("Example k%d : hist (mk %s%%N %s) [%s] = [%s]." % (n, t[1], t[2], "; ".join(ops), "; ".join(exp)))
+        lines.append("Proof. vm_compute. reflexivity. Qed.")
+        n += 1
+    vf = os.path.join(ctx.work, "kernel_crosscheck.v")
+    open(vf, "w").write("\n".join(lines) + "\n")
+    try:
+        p = subprocess.run(["coqc", "-q", "-Q", C.COQ, "Yui", vf], cwd=ctx.work, capture_output=True, text=True, timeout=600)
+        ok, msg = p.returncode == 0, (p.stdout + p.stderr)[-800:]
+    except subprocess.TimeoutExpired:
+        ok, msg = False, "coqc timed out"
+    info = {"kernel_crosscheck": {"cases_evaluated_by_vm_compute": n, "agree_with_extracted_runner": ok}}
+    probs = [] if ok else ["kernel cross-check: vm_compute and the extracted runner disagree (or coqc failed): " + msg]
+    return info, probs
+
+
 def run(ctx):
     ctx.equal = equal
     obl = C.coq_obligations(ctx.pid, ["Extract/ExtractC17.vo"])
@@ -49,6 +122,12 @@ def run(ctx):
     if ctx.thorough:
         extra.update(C.coqchk(ctx.pid))
     corr = C.correspondence(ctx, "c17", nontrivial)
+    if corr.get("ok"):
+        info, probs = kernel_crosscheck(ctx)
+        extra.update(info)
+        if probs:
+            obl["problems"] = obl.get("problems", []) + probs
+            obl["ok"] = False
     return C.finish(ctx, "proof", obl, corr, RULE, extra_cov=extra, assumptions=ASSUME)
 
 
